@@ -31,8 +31,8 @@ EXTENDS TraceLib, Pool
 
 CONSTANTS Mode
 
-VARIABLES l, S, P
-vars == <<l, S, P>>
+VARIABLES l, S, P, J
+vars == <<l, S, P, J>>
 
 Ev == Trace[l]
 IsEvent(name) == l <= TraceLen /\ Ev.ev = name /\ l' = l + 1
@@ -109,12 +109,9 @@ MHand(p, o, e) ==
 
 MLive(o) == \A a, b \in DOMAIN o.hround : o.hround[a] = o.hround[b] => a = b
 
-Monitor(p, o, e) ==
-    IF Mode = "c19" THEN MLive(o)
-    ELSE MRetention(p, o) /\ MPure(o) /\ MIndex(p, o) /\ MHand(p, o, e) /\ MLive(o)
-
 -----------------------------------------------------------------------------
-Init == l = 1 /\ S = InitState(<<>>, 0) /\ P = [head |-> 0]
+\* J = <<previous observation, observation, event>> of the last judged event (monitor modes)
+Init == l = 1 /\ S = InitState(<<>>, 0) /\ P = [head |-> 0] /\ J = <<>>
 
 Reset ==
     /\ IsEvent("Reset")
@@ -122,7 +119,7 @@ Reset ==
          /\ Mode = "full" => /\ Ev.K = K /\ Ev.sizelimit = SizeLimit /\ Ev.ringcap = RingCap /\ Ev.cachecap = CacheCap
                              /\ ObsMatches(T, Ev.obs)
          /\ S' = T
-    /\ P' = Ev.obs
+    /\ P' = Ev.obs /\ J' = <<>>
 
 Op ==
     /\ IsEvent("Op")
@@ -131,8 +128,8 @@ Op ==
        THEN LET r == Apply(S, Ev.o) IN
               /\ Ev.res = Coarse(Ev.o.op, r.res)
               /\ ObsMatches(r.S, Ev.obs)
-              /\ S' = r.S
-       ELSE Monitor(P, Ev.obs, Ev) /\ S' = S
+              /\ S' = r.S /\ J' = <<>>
+       ELSE S' = S /\ J' = <<P, Ev.obs, Ev>>
     /\ P' = Ev.obs
 
 Poll ==
@@ -144,8 +141,8 @@ Poll ==
               /\ Ev.at = "end" => T.pc = "idle"
               /\ Ev.at \in {"hand", "end"}
               /\ ObsMatches(T, Ev.obs)
-              /\ S' = T
-       ELSE Monitor(P, Ev.obs, Ev) /\ S' = S
+              /\ S' = T /\ J' = <<>>
+       ELSE S' = S /\ J' = <<P, Ev.obs, Ev>>
     /\ P' = Ev.obs
 
 Next == Reset \/ Op \/ Poll
@@ -156,4 +153,12 @@ Accepted == TraceAcceptedAt
 
 \* the statements of Pool.tla on the specification's own state (full mode)
 Inv == Mode = "full" => (SlotPure(S) /\ IndexOK(S) /\ NoRetry(S) /\ FinFlagOK(S) /\ HandoverOK(S) /\ MidOK(S))
+
+\* the statements on the observations (monitor modes), one invariant each
+Judged == Len(J) = 3
+MonRetention == (Mode = "monitor" /\ Judged) => MRetention(J[1], J[2])
+MonPure      == (Mode = "monitor" /\ Judged) => MPure(J[2])
+MonIndex     == (Mode = "monitor" /\ Judged) => MIndex(J[1], J[2])
+MonHandover  == (Mode = "monitor" /\ Judged) => MHand(J[1], J[2], J[3])
+MonLive      == (Mode \in {"monitor", "c19"} /\ Judged) => MLive(J[2])
 =============================================================================
